@@ -558,7 +558,11 @@ class LambdaExpression(Expression):
                 expr,
             )
 
-        assert token.type_ == TokenType.LPAREN
+        if token.type_ != TokenType.LPAREN:
+            raise LiquidSyntaxError(
+                "expected an arrow function parameter", token=token
+            )
+
         params: list[Identifier] = []
 
         while stream.current().type_ != TokenType.RPAREN:
